@@ -565,6 +565,22 @@ def attach_replies(tr, t):
         h['replies'] = parts
 
 
+_SEEN = {}
+
+
+def report(ctx, key, what, inp, observed=None, expected=None):
+    """ctx.violation, but after the first 20 reports of a key only for inputs smaller than the best so far
+    (ctx.violation serialises both inputs on every call)."""
+    size = sum(len(r) for r in inp.get('reads', [])) + sum(len(r) for r in inp.get('lines', [])) + 40 * len(inp.get('actions', []))
+    st = _SEEN.setdefault((id(ctx), key), [0, size])
+    st[0] += 1
+    if st[0] > 20 and size >= st[1]:
+        ctx.stat('violation-reports-skipped:' + key)
+        return
+    st[1] = min(st[1], size)
+    ctx.violation(key, what, inp=inp, observed=observed, expected=expected)
+
+
 # ===================================================================== splittings
 
 def splittings(rng, stream, n_random=2, bytewise_max=48):
@@ -688,7 +704,7 @@ def judge_scripted(ctx, stream_name, script, reads_list, pending, label=None):
         nontrivial = bool(tr.steps or obs['closed'])
         ctx.case(stream_name, sample=case if len(stream) < 400 else None, nontrivial=nontrivial)
         for key, what, observed, expected in oracle(stream, obs, tr, crashed, offered, limit, reject_msg):
-            ctx.violation(key, what, inp=case, observed=observed, expected=expected)
+            report(ctx, key, what, case, observed, expected)
         line = fmt_obs(obs, extra=('cancels', 'steps'))
         if first is None:
             first = (line, case, obs)
@@ -696,11 +712,10 @@ def judge_scripted(ctx, stream_name, script, reads_list, pending, label=None):
             same = ('sent', 'closed', 'auth', 'guid', 'bin', 'handed', 'crashed')
             if any(first[2][k] != obs[k] for k in same):
                 long_involved = any(len(p) >= MAXLINE for p in stream.split(b'\r\n'))
-                ctx.violation('authline-16384-split-dependent' if long_involved else 'auth-split-dependent',
-                              'the same byte stream gives a different outcome under another splitting into reads',
-                              inp={'kind': 'scripted', 'script': script, 'reads': [hx(r) for r in reads],
-                                   'other_reads': first[1]['reads']},
-                              observed=line, expected=first[0])
+                report(ctx, 'authline-16384-split-dependent' if long_involved else 'auth-split-dependent',
+                       'the same byte stream gives a different outcome under another splitting into reads',
+                       {'kind': 'scripted', 'script': script, 'reads': [hx(r) for r in reads],
+                        'other_reads': first[1]['reads']}, line, first[0])
         pending.append((stream_name, case, model_line_scripted(script, reads), line))
         ctx.stat('reads=%d' % min(len(reads), 8))
         ctx.stat('closed=%d auth=%d crashed=%d' % (obs['closed'], obs['auth'], obs['crashed']))
@@ -1202,6 +1217,13 @@ def gen_real_case(rng):
         actions = [['auth-cookie', u], ['cookie-resp', v], ['raw', hx(b'BEGIN')]]
         if spec['dirs'][home] in ('absent', 'good'):
             conforming = 'cookie'
+    elif kind < 0.75:
+        # a client that knows the user but not the cookie: every wrong variant, then (sometimes) the right one
+        u = rng.choice(['alice', 'bob', '1000', '1001'])
+        v = rng.choice(['wronghash', 'wrongcc', 'upper', 'wrongcookie', 'three', 'one', 'empty'])
+        actions = [['auth-cookie', u], ['cookie-resp', v], ['raw', hx(b'BEGIN')]]
+        if rng.random() < 0.5:
+            actions = actions[:2] + [['auth-cookie', u], ['cookie-resp', 'right'], ['raw', hx(b'BEGIN')]]
     else:
         actions = []
         for _ in range(rng.randint(1, 7)):
@@ -1235,19 +1257,19 @@ def judge_real(ctx, case, pending, rng=None):
             name = crashed1.split(':')[0]
             benign = (name == 'KeyError' and h['line'].startswith(b'BEGIN'))     # peer uid without passwd entry
             if not benign:
-                ctx.violation(crash_key(crashed1, None, None),
-                              '%s escapes dataReceived on line %r' % (crashed1, h['line'][:60]),
-                              inp=inp, observed=fmt_obs(obs1), expected='a reply per the state table')
+                report(ctx, crash_key(crashed1, None, None),
+                       '%s escapes dataReceived on line %r' % (crashed1, h['line'][:60]),
+                       inp, fmt_obs(obs1), 'a reply per the state table')
     for key, what, observed, expected in oracle(stream, obs1, tr1, crashed1, offered, limit, reject_msg):
         if crashed1 is not None and key.startswith(('auth-line-crash', 'external-creds', 'auth-invalid-hex', 'cookie-double')):
             continue
-        ctx.violation(key, what, inp=inp, observed=observed, expected=expected)
+        report(ctx, key, what, inp, observed, expected)
     conf = case.get('conforming')
     if conf and crashed1 is None and not obs1['auth']:
         key = {'cookie': 'cookie-right-response-rejected', 'external': 'external-client-not-accepted',
                'anonymous': 'anonymous-client-not-accepted'}[conf]
-        ctx.violation(key, 'a conforming %s client presenting acceptable credentials is not accepted' % conf,
-                      inp=inp, observed=fmt_obs(obs1), expected='auth=1')
+        report(ctx, key, 'a conforming %s client presenting acceptable credentials is not accepted' % conf,
+               inp, fmt_obs(obs1), 'auth=1')
     # wrong / right cookie responses: look at the verdict the mechanism gave on exactly that line
     for k in facts['wrong_at'] + facts['right_at']:
         if k < len(tr1.handed):
@@ -1255,12 +1277,12 @@ def judge_real(ctx, case, pending, rng=None):
             if h['outcomes'] and h['outcomes'][-1][0] == b'DBUS_COOKIE_SHA1':
                 o = h['outcomes'][-1][1]
                 if k in facts['wrong_at'] and o == 'A':
-                    ctx.violation('wrong-cookie-accepted', 'DBUS_COOKIE_SHA1 accepted a wrong response', inp=inp,
-                                  observed=fmt_obs(obs1), expected='REJECTED')
+                    report(ctx, 'wrong-cookie-accepted', 'DBUS_COOKIE_SHA1 accepted a wrong response', inp,
+                           fmt_obs(obs1), 'REJECTED')
                 if k in facts['right_at'] and o != 'A' and is_second_step(tr1, k):
-                    ctx.violation('cookie-right-response-rejected',
-                                  'DBUS_COOKIE_SHA1 rejected the response hash(server_challenge:client_challenge:cookie)',
-                                  inp=inp, observed=fmt_obs(obs1), expected='OK')
+                    report(ctx, 'cookie-right-response-rejected',
+                           'DBUS_COOKIE_SHA1 rejected the response hash(server_challenge:client_challenge:cookie)',
+                           inp, fmt_obs(obs1), 'OK')
     ctx.impl_trace()
     # phase 2: same bytes under splittings, against the model
     rng = rng or ctx.rng
@@ -1278,8 +1300,8 @@ def judge_real(ctx, case, pending, rng=None):
         else:
             same = ('sent', 'closed', 'auth', 'guid', 'bin', 'handed', 'crashed', 'files', 'dirs')
             if any(first[k] != obs[k] for k in same):
-                ctx.violation('auth-split-dependent', 'the same byte stream gives a different outcome under another splitting',
-                              inp=c2, observed=line, expected=fmt_obs(first))
+                report(ctx, 'auth-split-dependent', 'the same byte stream gives a different outcome under another splitting',
+                       c2, line, fmt_obs(first))
         pending.append(('real-mechs', c2, 'R %s %s %s' % (hx(GUID), menv, ' '.join(hx(r) for r in reads)), line_m))
         ctx.stat('real: auth=%d closed=%d crashed=%d' % (obs['auth'], obs['closed'], obs['crashed']))
     ctx.stat('real: conforming=%s' % conf)
